@@ -73,7 +73,7 @@ type verifStatsReply struct {
 }
 
 func verifClient(tag string, host string, optional bool) *verifClientJSON {
-	c := &verifClientJSON{ClientID: "id-" + host, Hostname: host, Version: "V2", RemoteAddress: "10.1.1.1:5",
+	c := &verifClientJSON{ClientID: tag + "@" + host, Hostname: host, Version: "V2", RemoteAddress: "10.1.1.1:5",
 		ReadyCount: verifrt.Int(tag + ".rdy"), InFlightCount: verifrt.Int(tag + ".inflight"), MessageCount: verifrt.Int64(tag + ".msgs"),
 		FinishCount: verifrt.Int64(tag + ".fin"), RequeueCount: verifrt.Int64(tag + ".req"), ConnectTs: 1600000000,
 		SampleRate: verifrt.Int32(tag + ".sample")}
@@ -149,6 +149,8 @@ type verifChanAgg struct {
 	paused                                                               bool
 	nodes                                                                []string
 	nodeMsgs                                                             []int64
+	clientOf                                                             []*verifClientJSON
+	clientNode                                                           []string
 	clients                                                              int
 }
 
@@ -277,6 +279,10 @@ func VerifC18_NSQDStatsSums() {
 					a.nodes = append(a.nodes, node)
 					a.nodeMsgs = append(a.nodeMsgs, c.MessageCount)
 					a.clients += len(c.Clients)
+					for _, cl := range c.Clients {
+						a.clientOf = append(a.clientOf, cl)
+						a.clientNode = append(a.clientNode, node)
+					}
 				}
 			}
 		}
@@ -323,6 +329,19 @@ func VerifC18_NSQDStatsSums() {
 			for _, cl := range g.Clients {
 				verifrt.Assert(cl != nil && verifHas(a.nodes, cl.Node), "stats:client-tagged-with-its-node")
 				verifrt.Assert(cl.NodeTopologyRegion == "r1" && cl.NodeTopologyZone == "z1", "stats:client-tagged-with-node-topology")
+			}
+			for j, rc := range a.clientOf {
+				cnt := 0
+				for _, cl := range g.Clients {
+					if cl != nil && cl.ClientID == rc.ClientID {
+						cnt++
+						verifrt.Assert(cl.Node == a.clientNode[j] && cl.Hostname == rc.Hostname && cl.MessageCount == rc.MessageCount && cl.ReadyCount == rc.ReadyCount &&
+							cl.InFlightCount == rc.InFlightCount && cl.FinishCount == rc.FinishCount && cl.RequeueCount == rc.RequeueCount && cl.SampleRate == rc.SampleRate &&
+							cl.UserAgent == rc.UserAgent && cl.AuthIdentity == rc.AuthIdentity && cl.ConnectTs == rc.ConnectTs,
+							"stats:client-entry-is-what-its-node-reported")
+					}
+				}
+				verifrt.Assert(cnt == 1, "stats:every-reported-client-listed-once")
 			}
 			verifrt.Reach("stats:channel-on-two-nodes", len(a.nodes) >= 2)
 			verifrt.Reach("stats:clients-from-two-nodes", len(a.nodes) >= 2 && a.clients >= 3)
